@@ -16,6 +16,8 @@ def main(tier, seed):
     progs = scenarios.fiber_scenarios(rng, 1500 if tier == "quick" else 25000, nfib=3)
     profcheck.run_scenarios(rep, "fibers", progs, bins, PROP)
     profcheck.run_scenarios(rep, "switchcontexts", scenarios.fiber_switch_context_scenarios(), bins, PROP)
+    # fibers whose code lives in another module than their caller's: after every switch each side is back in its own module
+    profcheck.run_scenarios(rep, "crossmodule", [p for p in scenarios.cross_module_scenarios() if "fiber" in p[0]], bins, PROP)
     rep.coverage["exhaustive"] = False
     rep.sample({"kind": "fiber scenario", "source": __import__("yprog").program_src(progs[-1][1])})
     rep.coverage["rule"] = ("every one-fiber program with a body of <= 2 actions (10 action kinds) under two call schedules, plus seeded "
